@@ -83,6 +83,7 @@ class Plan:
         self.trait_vis = "pub "
         self.trait_generics = []      # list of ('lt', "'a", bounds) | ('ty', 'P', bounds_text, default_text|None) | ('const', 'N', 'usize', default|None)
         self.trait_supers = ""
+        self.trait_inner = ""         # inner attributes at the start of the trait body (`#![allow(..)]`, `#![doc = ".."]`)
         self.lt_ty = "&'a u8"         # type of the `ltfn` item: mentions the trait's / the block's lifetime 'a
         self.trait_where = ""
         self.items = [("const", "NAME", False), ("fn", "tag", False), ("fn", "dtag", True)]   # (kind, name, has_default)
@@ -207,6 +208,12 @@ class Plan:
                 out.append(f"{vis}fn {name}(x: {self.lt_ty}) -> {self.lt_ty} {{ x }}")
             elif kind == "ufn":
                 out.append(f'{vis}unsafe fn {name}() -> &\'static str {{ "{tag}" }}')
+            elif kind == "elfn":
+                # a late-bound lifetime named in the trait (and in even-numbered blocks), elided in odd-numbered blocks: legal Rust
+                if bi % 2 == 0:
+                    out.append(f"{vis}fn {name}<'q>(x: &'q u8) -> &'q u8 {{ x }}")
+                else:
+                    out.append(f"{vis}fn {name}(x: &u8) -> &u8 {{ x }}")
             elif kind == "pfn":
                 fi = self.blocks()[bi][0]
                 n = self.families[fi].nparams
@@ -236,8 +243,10 @@ class Plan:
                 items.append(f"fn {name}(&self) -> &'static str" + (f' {{ "dflt.{name}" }}' if has_default else ";"))
             elif kind == "ltfn":
                 items.append(f"fn {name}(x: {self.lt_ty}) -> {self.lt_ty};")
+            elif kind == "elfn":
+                items.append(f"fn {name}<'q>(x: &'q u8) -> &'q u8;")
         uns = "unsafe " if self.trait_unsafe else ""
-        return f"{self.trait_vis}{uns}trait {self.trait_name}{gtxt}{self.trait_supers}{self.trait_where} {{ {' '.join(items)} }}"
+        return f"{self.trait_vis}{uns}trait {self.trait_name}{gtxt}{self.trait_supers}{self.trait_where} {{ {self.trait_inner}{' '.join(items)} }}"
 
     def order(self):
         n = len(self.blocks())
@@ -878,6 +887,67 @@ class PlanGen:
         self.populate(plan)
         return plan
 
+    def default_vs_explicit_plan(self):
+        """directed shape (seeded change C02f): `trait Kita<P0 = u8>`; one family omits the trait argument (`impl<..> Kita for T`), another
+        instantiates it explicitly with a NON-default type (`impl<..> Kita<u16> for T`), same self type, same dispatch key, disjoint rows:
+        `Kita` (= `Kita<u8>`) and `Kita<u16>` are different instantiations and must stay independent families"""
+        r = self.r
+        plan = Plan()
+        plan.dtraits = [DTrait("D0")]
+        plan.trait_generics = [("ty", "P0", "", "u8")]
+        plan.items = [("const", "NAME", False)] + ([("fn", "tag", False)] if r.random() < 0.5 else [])
+        hdr = self.pick([("tp", 0), ("ctor", "W1", [("aty", ("tp", 0))])])
+        marks = list(MARKERS)
+        r.shuffle(marks)
+        fams = []
+        for fi, targs in enumerate([[], [leaf(self.pick(["u16", "String"]))]]):
+            members = []
+            for j in range(2):
+                m = Member({}, [leaf(marks[2 * fi + j])], 1)
+                m.names = self.names(1)
+                m.inline = {0: r.random() < 0.6}
+                members.append(m)
+            fams.append(Family(hdr, targs, 1, [Key(("tp", 0), 0, [], "G")], members))
+        if r.random() < 0.5:
+            fams.reverse()
+        plan.families = fams
+        plan.notes["directed"] = "omitted default argument next to an explicit non-default one"
+        plan.notes["keep_plain"] = True
+        self.populate(plan)
+        # every witness also asked with the other family's trait argument
+        extra = []
+        for ty, targs in plan.probes[:8]:
+            extra.append((ty, [] if targs else ["u16"]))
+        plan.probes += extra
+        self.finish_world(plan)
+        return plan
+
+    def assoc_subsets_plan(self):
+        """directed shape (seeded change C05f): a dispatch trait with THREE associated types; the blocks of one family bind different
+        two-element subsets of them (equally many bindings each), two blocks being distinguishable only through a name that the others
+        do not all bind: the dispatched columns are the union over all members, whichever block comes last"""
+        r = self.r
+        plan = Plan()
+        plan.dtraits = [DTrait("D3", assocs=("G", "H", "I"))]
+        plan.items = [("const", "NAME", False)]
+        hdr = self.pick([("tp", 0), ("ctor", "W1", [("aty", ("tp", 0))])])
+        keys = [Key(("tp", 0), 0, [], a) for a in ("G", "H", "I")]
+        rows = [[leaf("GA"), leaf("GA"), None], [leaf("GA"), leaf("GB"), None], [leaf("GB"), None, leaf("GA")]]
+        if r.random() < 0.5:
+            rows.append([leaf("GC"), None, leaf("GB")])
+        r.shuffle(rows)
+        members = []
+        for row in rows:
+            m = Member({}, row, 1)
+            m.names = self.names(1)
+            m.inline = {ki: r.random() < 0.6 for ki in range(3)}
+            members.append(m)
+        plan.families = [Family(hdr, [], 1, keys, members)]
+        plan.notes["directed"] = "members bind different subsets of three associated types"
+        plan.notes["keep_plain"] = True
+        self.populate(plan)
+        return plan
+
     def populate(self, plan, per_member=1):
         plan.world, plan.plain, plan.probes = [], [], []
         for fi, f in enumerate(plan.families):
@@ -1328,6 +1398,15 @@ class PlanGen:
                     targs_ty.append(("tp", p))
                     if tp_bounds[i]:
                         extra.append((("tp", p), tp_bounds[i]))
+                elif c < 0.72:
+                    targs_ty.append(leaf(self.pick(["u8", "u16", "String"])))
+                elif c < 0.8 and not tp_bounds[i]:
+                    # a LOCAL type spelled like one of the trait's own type parameters, nested inside the argument (seeded change C16f:
+                    # an inserted argument must not be substituted again)
+                    nm = f"P{r.randrange(ntp)}"
+                    if nm not in plan.locals:
+                        plan.locals.append(nm)
+                    targs_ty.append(self.pick([("tuple", [leaf(nm), leaf("u8")]), ("ctor", "Vec", [("aty", leaf(nm))]), ("tuple", [leaf(nm), leaf(nm)])]))
                 elif c < 0.8:
                     targs_ty.append(leaf(self.pick(["u8", "u16", "String"])))
                 else:
